@@ -103,7 +103,7 @@ func init() {
 		}
 		return c.p.tc().True, ctlRet
 	})
-	z("Replace", func(c *callCtx) (Value, ctl) {
+	replaceFn := func(c *callCtx) (Value, ctl) {
 		name := c.p.asStr(c.args[0]).s
 		iv, ok := c.args[1].(IfaceV)
 		if !ok || iv.t == nil {
@@ -116,7 +116,9 @@ func init() {
 		}
 		c.p.replace[name] = fv
 		return nil, ctlRet
-	})
+	}
+	z("Replace", replaceFn)
+	z("ReplaceSym", replaceFn)
 	z("UF8", func(c *callCtx) (Value, ctl) {
 		p := c.p
 		p.usedStub = true
